@@ -2,7 +2,7 @@
 // usage: vx_replay <scenario>     prints what happens and a final line `VERDICT <scenario> DEFECT|OK`; exit 1 on DEFECT.
 // Each scenario is a concrete history/input that violates a property on the pinned tree (DESIGN.md section 7).
 #![allow(dead_code)]
-use kyrodb_engine::backup::{BackupManager, BackupMetadata, BackupType, RetentionPolicy};
+use kyrodb_engine::backup::{compute_backup_checksum, BackupManager, BackupMetadata, BackupType, ClearDirectoryOptions, RestoreManager, RetentionPolicy};
 use kyrodb_engine::config::DistanceMetric;
 use kyrodb_engine::hnsw_backend::HnswBackend;
 use kyrodb_engine::metrics::MetricsCollector;
@@ -273,10 +273,161 @@ fn similarity_ignores_metric() -> bool {
     r2.first().map(|x| x.doc_id) != Some(2)
 }
 
+// ---- C12 restore findings (units archive_header / archive_checksum / restore_order / restore_pitr; notes/c12_restore_replays.rs)
+// hand-built archives in the documented format: count:u32le { name_len:u32le name data_len:u64le data }*
+fn c12_write_archive(path: &std::path::Path, entries: &[(&str, &[u8])]) {
+    let mut out = Vec::new();
+    out.extend_from_slice(&(entries.len() as u32).to_le_bytes());
+    for (name, data) in entries {
+        out.extend_from_slice(&(name.len() as u32).to_le_bytes());
+        out.extend_from_slice(name.as_bytes());
+        out.extend_from_slice(&(data.len() as u64).to_le_bytes());
+        out.extend_from_slice(data);
+    }
+    std::fs::write(path, out).unwrap();
+}
+fn c12_write_meta(dir: &std::path::Path, file_id: uuid::Uuid, m: &BackupMetadata) {
+    std::fs::write(dir.join(format!("backup_{}.json", file_id)), serde_json::to_string(m).unwrap()).unwrap();
+}
+fn c12_backup(dir: &std::path::Path, ty: BackupType, parent: Option<uuid::Uuid>, ts: u64, entries: &[(&str, &[u8])]) -> BackupMetadata {
+    let id = uuid::Uuid::new_v4();
+    let tar = dir.join(format!("backup_{}.tar", id));
+    c12_write_archive(&tar, entries);
+    let m = BackupMetadata { id, timestamp: ts, backup_type: ty, size_bytes: 0, vector_count: 0, checksum: compute_backup_checksum(&tar).unwrap(),
+        parent_id: parent, description: String::new(), max_wal_file_id: None, snapshot_file: None };
+    c12_write_meta(dir, id, &m);
+    m
+}
+fn c12_ls(dir: &std::path::Path) -> Vec<(String, String)> {
+    let mut v: Vec<_> = std::fs::read_dir(dir).unwrap().map(|e| { let e = e.unwrap(); (e.file_name().to_string_lossy().to_string(),
+        if e.path().is_file() { String::from_utf8_lossy(&std::fs::read(e.path()).unwrap()).to_string() } else { "<dir>".into() }) }).collect();
+    v.sort();
+    v
+}
+// backup dir + a LIVE data dir {MANIFEST: "live-manifest", wal_9.wal: "live-wal"}
+fn c12_dirs() -> (tempfile::TempDir, tempfile::TempDir) {
+    let b = tempfile::tempdir().unwrap();
+    let d = tempfile::tempdir().unwrap();
+    std::fs::write(d.path().join("MANIFEST"), b"live-manifest").unwrap();
+    std::fs::write(d.path().join("wal_9.wal"), b"live-wal").unwrap();
+    (b, d)
+}
+fn c12_live_intact(d: &std::path::Path) -> bool {
+    c12_ls(d) == vec![("MANIFEST".to_string(), "live-manifest".to_string()), ("wal_9.wal".to_string(), "live-wal".to_string())]
+}
+fn c12_allow() -> ClearDirectoryOptions { ClearDirectoryOptions::new().with_allow_clear(true) }
+// alter the last byte of the first member name ("MANIFEST") of a one-Full backup and restore it over the live directory
+fn c12_altered_name(new_last: u8) -> (anyhow::Result<()>, Vec<(String, String)>, bool) {
+    let (b, d) = c12_dirs();
+    let m = c12_backup(b.path(), BackupType::Full, None, 100, &[("MANIFEST", b"m1"), ("wal_1.wal", b"w1")]);
+    let tar = b.path().join(format!("backup_{}.tar", m.id));
+    let mut bytes = std::fs::read(&tar).unwrap();
+    let pos = 4 + 4 + 7;
+    assert_eq!(bytes[pos], b'T');
+    bytes[pos] = new_last;
+    std::fs::write(&tar, bytes).unwrap();
+    let r = RestoreManager::new(b.path(), d.path()).unwrap().restore_from_backup_with_options(m.id, &c12_allow());
+    let ls = c12_ls(d.path());
+    let intact = c12_live_intact(d.path());
+    (r, ls, intact)
+}
+// F-C12-b.name  (C12)  one flipped bit in a member NAME: the checksum (wrapping sum of payload CRC32s) does not notice
+//   restore -> Ok(()); data dir = [("MANIFESU", "m1"), ("wal_1.wal", "w1")]
+fn c12_name_bit_flip() -> bool {
+    let (r, ls, intact) = c12_altered_name(b'T' ^ 0x01);
+    println!("  one bit of a member name flipped: restore -> {:?}; data dir = {:?}", r.as_ref().map_err(|e| e.to_string()), ls);
+    // an altered archive must be rejected before the target directory is touched
+    !(r.is_err() && intact)
+}
+// F-C12-b.slash  (C12)  last name byte becomes '/': Path::components() drops the trailing separator, validation and checksum pass,
+//   the live directory is cleared, then the extraction fails
+//   restore -> Err("Failed to create restore target <data>/MANIFES/"); data dir = []
+fn c12_name_slash() -> bool {
+    let (r, ls, intact) = c12_altered_name(b'/');
+    println!("  member name 'MANIFES/': restore -> {:?}; data dir = {:?}", r.as_ref().map_err(|e| e.to_string()), ls);
+    !(r.is_err() && intact)
+}
+// F-C12-c.type  (C12)  "Incremental" -> "Full" in backup_<id>.json: the incremental is restored alone
+//   restore -> Ok(()); data dir = [("MANIFEST", "m2"), ("wal_2.wal", "w2")]   (wal_1.wal of the parent is missing)
+fn c12_meta_type_altered() -> bool {
+    let (b, d) = c12_dirs();
+    let f = c12_backup(b.path(), BackupType::Full, None, 100, &[("MANIFEST", b"m1"), ("wal_1.wal", b"w1")]);
+    let i = c12_backup(b.path(), BackupType::Incremental, Some(f.id), 200, &[("MANIFEST", b"m2"), ("wal_2.wal", b"w2")]);
+    let jp = b.path().join(format!("backup_{}.json", i.id));
+    std::fs::write(&jp, std::fs::read_to_string(&jp).unwrap().replace("\"Incremental\"", "\"Full\"")).unwrap();
+    let r = RestoreManager::new(b.path(), d.path()).unwrap().restore_from_backup_with_options(i.id, &c12_allow());
+    println!("  backup_type of an incremental altered to Full: restore -> {:?}; data dir = {:?}", r.as_ref().map_err(|e| e.to_string()), c12_ls(d.path()));
+    // altered metadata must be rejected before the target directory is touched
+    !(r.is_err() && c12_live_intact(d.path()))
+}
+// F-C12-c.id  (C12)  backup_<f>.json holds the record of another backup g: restore(f) verifies and restores archive g
+//   restore(f) -> Ok(()); data dir = [("state", "B")]
+fn c12_meta_id_mismatch() -> bool {
+    let (b, d) = c12_dirs();
+    let f = c12_backup(b.path(), BackupType::Full, None, 100, &[("state", b"A")]);
+    let g = c12_backup(b.path(), BackupType::Full, None, 100, &[("state", b"B")]);
+    c12_write_meta(b.path(), f.id, &g);
+    let r = RestoreManager::new(b.path(), d.path()).unwrap().restore_from_backup_with_options(f.id, &c12_allow());
+    println!("  restore(f) where backup_f.json holds record g: -> {:?}; data dir = {:?}", r.as_ref().map_err(|e| e.to_string()), c12_ls(d.path()));
+    !(r.is_err() && c12_live_intact(d.path()))
+}
+// F-C12-d.cycle  (C12)  a parent_id cycle: the parent walk (restore_from_backup) / the child walk (point-in-time) never end and
+//   keep growing their chain.  Run in a child process, killed after 10 s.   DEFECT = still running
+fn c12_cycle_child(kind: &str, bdir: &std::path::Path, ddir: &std::path::Path, arg: &str) {
+    let mgr = RestoreManager::new(bdir, ddir).unwrap();
+    let r = if kind == "parent" {
+        mgr.restore_from_backup_with_options(arg.parse().unwrap(), &ClearDirectoryOptions::new().with_dry_run(true))
+    } else {
+        mgr.restore_point_in_time_with_options(arg.parse().unwrap(), &ClearDirectoryOptions::new().with_dry_run(true))
+    };
+    println!("  child {kind}: returned {:?}", r.map_err(|e| e.to_string()));
+}
+fn c12_runs_forever(kind: &str, bdir: &std::path::Path, ddir: &std::path::Path, arg: &str) -> bool {
+    let exe = std::env::current_exe().unwrap();
+    let mut child = std::process::Command::new(exe).arg("F-C12-d-child").arg(kind).arg(bdir).arg(ddir).arg(arg).spawn().unwrap();
+    let t0 = std::time::Instant::now();
+    loop {
+        if let Some(st) = child.try_wait().unwrap() {
+            println!("  {kind} walk: child finished after {:?} ({st})", t0.elapsed());
+            return false;
+        }
+        if t0.elapsed() > std::time::Duration::from_secs(10) {
+            let _ = child.kill();
+            let _ = child.wait();
+            println!("  {kind} walk: still running after 10 s, killed");
+            return true;
+        }
+        std::thread::sleep(std::time::Duration::from_millis(50));
+    }
+}
+fn c12_cycle() -> bool {
+    // parent walk: an Incremental whose parent_id is its own id
+    let (b, d) = c12_dirs();
+    let f = c12_backup(b.path(), BackupType::Full, None, 100, &[("state", b"v1")]);
+    let mut j = c12_backup(b.path(), BackupType::Incremental, Some(f.id), 300, &[("state", b"v3")]);
+    j.parent_id = Some(j.id);
+    c12_write_meta(b.path(), j.id, &j);
+    let hang1 = c12_runs_forever("parent", b.path(), d.path(), &j.id.to_string());
+    // child walk: a second record (in its own file) that is an Incremental child of the Full and carries the Full's id
+    let (b2, d2) = c12_dirs();
+    let f2 = c12_backup(b2.path(), BackupType::Full, None, 100, &[("state", b"v1")]);
+    let mut k = c12_backup(b2.path(), BackupType::Incremental, Some(f2.id), 200, &[("state", b"v2")]);
+    let k_file = k.id;
+    k.id = f2.id;
+    c12_write_meta(b2.path(), k_file, &k);
+    let hang2 = c12_runs_forever("pitr", b2.path(), d2.path(), "250");
+    hang1 || hang2
+}
+
 fn main() {
     let which = std::env::args().nth(1).unwrap_or_else(|| "all".to_string());
     if which == "F-C01-a-child" {
         crash_child(std::path::Path::new(&std::env::args().nth(2).unwrap()));
+        return;
+    }
+    if which == "F-C12-d-child" {
+        let a: Vec<String> = std::env::args().collect();
+        c12_cycle_child(&a[2], std::path::Path::new(&a[3]), std::path::Path::new(&a[4]), &a[5]);
         return;
     }
     let scenarios: Vec<(&str, Box<dyn Fn() -> bool>)> = vec![
@@ -285,6 +436,11 @@ fn main() {
         ("F-C03-a.inf", Box::new(|| failed_overwrite(DistanceMetric::Cosine, vec![1.0, 0.0], vec![f32::INFINITY, 0.0]))),
         ("F-C01-a", Box::new(crash_at_first_unlink)),
         ("F-C12-a", Box::new(prune_parent)),
+        ("F-C12-b.name", Box::new(c12_name_bit_flip)),
+        ("F-C12-b.slash", Box::new(c12_name_slash)),
+        ("F-C12-c.type", Box::new(c12_meta_type_altered)),
+        ("F-C12-c.id", Box::new(c12_meta_id_mismatch)),
+        ("F-C12-d.cycle", Box::new(c12_cycle)),
         ("F-C11-a", Box::new(filtered_delete_stale_hot)),
         ("F-C13-a", Box::new(strict_fallback_loss)),
         ("F-C13-b", Box::new(truncated_older_segment)),
